@@ -204,6 +204,24 @@ def run(chk):
   if 'err' not in cwr and cwr != {'y': 15.0, 'acc': 3, 'n_cond': 4}:
     chk.violation('oracle', 'a write by the condition of nn.while_loop to a carried collection neither raises nor takes effect as in the Python loop (it is silently dropped)',
                   {'observed': cwr, 'python_loop': {'y': 15.0, 'acc': 3, 'n_cond': 4}})
+  # a module that receives bound sub-modules through its dataclass fields (any declaration order), lifted as a whole
+  fcases = []
+  pool = ['encoder', 'decoder', 'b', 'a', 'z_last', 'head', 'm0', 'body']
+  for i in range(160 if chk.tier == 'thorough' else 20):
+    names = rng.sample(pool, rng.randint(2, 4))
+    fcases.append({'names': names, 'ws': [rng.randint(2, 5) for _ in names], 'order': [rng.choice(names) for _ in range(rng.randint(2, 4))] if rng.random() < 0.4 else list(names),
+                   'form': ['jit', 'remat', 'map_variables', 'cond', 'switch'][i % 5], 'pred': rng.random() < 0.7, 'created': rng.random() < 0.6, 'x': rng.randint(1, 4)})
+  fr = common.run_impl_parallel('impl_c05_fields.py', [{'fields': fcases[i::4]} for i in range(4)], workers=4, timeout=1500)
+  for k, r in enumerate(fr):
+    for c, o in zip(fcases[k::4], r['fields']):
+      chk.count({'field_modules': c}, c['names'] != sorted(c['names']))
+      same = o['impl'] == o['ref']
+      if not same and c['form'] == 'jit' and 'ok' in o['impl'] and 'ok' in o['ref']:
+        same = o['impl']['ok'] == o['ref']['ok']
+      if not same or 'err' in o['ref']:
+        chk.violation('oracle', 'nn.%s of a module that receives sub-modules through its dataclass fields (declared in the order %s) differs from the plain module '
+                      '(output, variable tree of init, or mutable updates)' % (c['form'], c['names']), {'case': c, 'lifted': o['impl'], 'plain': o['ref']})
+  chk.notes['field_modules'] = {'cases': len(fcases)}
   chk.notes['stats'] = stat
   chk.cov['rule'] = ('random compact module programs (C01 generator) in which 60% of the sub-modules are created from nn.jit / nn.remat / nn.map_variables(identity) classes (explicit and automatic '
                      'names) and nn.cond / nn.switch / nn.while_loop statements act on variables declared before; init then 1-3 applies on the same Module instance with changing `mutable` '
